@@ -305,7 +305,7 @@ impl Prop for C05 {
         Some(1 << 30)
     }
     fn random_cases(tier: Tier) -> u64 {
-        tier.pick(60_000, 1_500_000)
+        tier.pick(60_000, 5_000_000)
     }
     fn strategy(_tier: Tier) -> BoxedStrategy<Case> {
         let files = super::repo_test_files();
@@ -464,6 +464,10 @@ impl Prop for C05 {
                         return;
                     }
                     if !be {
+                        // the library finds "AnimClipNameTable" by iterating a HashMap: with the label on several addresses the
+                        // outcome depends on the hash state and is kept out of the cross-build digest
+                        let ambiguous = a.all_labels().iter().filter(|(_, x)| x == "AnimClipNameTable").count() > 1;
+                        let before = p.outcome;
                         match p.call("ASetFile::from_archive", || ASetFile::from_archive(&a)) {
                             Some(Ok(s)) => {
                                 p.cx.label("accepted:aset");
@@ -473,6 +477,10 @@ impl Prop for C05 {
                             }
                             Some(Err(_)) => {}
                             None => return,
+                        }
+                        if ambiguous {
+                            p.outcome = before;
+                            p.cx.label("aset-lookup-ambiguous(duplicate AnimClipNameTable labels)");
                         }
                         match p.call("AssetBinary::from_archive", || AssetBinary::from_archive(&a)) {
                             Some(Ok(s)) => {
@@ -508,6 +516,15 @@ impl Prop for C05 {
             }
         }
         // ---- 3DS arc
+        // (an archive carrying the label Count or Info on several addresses makes the library's label lookup depend on the
+        //  hash state: the Ok/Err outcome of arc::from_bytes is then excluded from the cross-build digest)
+        let ambiguous_arc = BinArchive::from_bytes(&bytes, Endian::Little)
+            .map(|a| {
+                let l = a.all_labels();
+                ["Count", "Info"].iter().any(|n| l.iter().filter(|(_, x)| x == n).count() > 1)
+            })
+            .unwrap_or(false);
+        let before_arc = p.outcome;
         match p.call("arc::from_bytes", || arc::from_bytes(&bytes)) {
             Some(Ok(m)) => {
                 if header_overdeclares(&bytes, false) != Some(false) {
@@ -518,6 +535,10 @@ impl Prop for C05 {
             }
             Some(Err(_)) => {}
             None => return,
+        }
+        if ambiguous_arc {
+            p.outcome = before_arc;
+            p.cx.label("arc-lookup-ambiguous(duplicate Count/Info labels)");
         }
         // ---- GameCube/Wii pack
         let pack_over = pack_overdeclares(&bytes);
